@@ -107,9 +107,10 @@ func supplyOracle(e *Exec) []Disc {
 }
 
 type unionOpts struct {
-	name    string
-	extreme bool // C14: extreme amounts, every account kind, denom change
-	multi   bool // C14: multi-message transactions with a failing k-th message
+	name     string
+	govOrder bool // the order raised by the governance module account is part of the initial state
+	extreme  bool // C14: extreme amounts, every account kind, denom change
+	multi    bool // C14: multi-message transactions with a failing k-th message
 }
 
 func unionGenesis() mc.GenesisSpec {
@@ -166,6 +167,15 @@ func unionScenario(o unionOpts) *Scenario {
 			Enabled: func(m *model.State, aux map[string]int) bool { return aux["gov"] < 1 && len(m.Ent.Orders) < maxOrders }},
 	)
 	add(timeSteps(300, time.Second, 100*time.Second)...)
+	if o.govOrder {
+		for i := range s.Actions {
+			if s.Actions[i].Name == "gov(raise(gov,17))" {
+				s.Actions[i].Count = "" // does not use up the scenario's one governance step
+				s.Actions[i].Enabled = func(m *model.State, _ map[string]int) bool { return len(m.Ent.Orders) == 0 }
+			}
+		}
+		s.Prefix = []string{"gov(raise(gov,17))"}
+	}
 	if o.extreme {
 		p255, p256m1 := pow2(255), new(big.Int).Sub(pow2(256), big.NewInt(1))
 		for _, pa := range []struct {
